@@ -67,6 +67,8 @@ def run_case(case, workdir):
     use_pool = case.get("pool", bool(rng.integers(3) == 0))
     par_prior = bool(rng.integers(2))
     pool = FakePool() if use_pool else None
+    if pool is not None:
+        pool.parallelize_prior = par_prior  # read by the runner: enable_pool(pool, close_pool=False, parallelize_prior=...)
     V, probes, keys = [], {}, []
     if pool is not None:
         # enable_pool(pool, close_pool=False, parallelize_prior=?) is applied by the runner
